@@ -103,11 +103,11 @@ def extract_uncache_after(cache_control: str) -> timedelta:
     """Get uncache after from cache control header."""
     match = CACHE_CONTROL_RE.search(cache_control)
     if match:
-        max_age = int(match[1])
         try:
-            return timedelta(seconds=max_age)
-        except OverflowError:
-            # Larger than any representable duration: valid "forever".
+            return timedelta(seconds=int(match[1]))
+        except (ValueError, OverflowError):
+            # More digits than int() accepts, or larger than any representable
+            # duration: valid "forever".
             return timedelta.max
     return DEFAULT_MAX_AGE
 
